@@ -367,8 +367,10 @@ class ClientWorldObjectManager:
         if old_region_handle != new_region_handle:
             # The object just changed regions, we have to remove it from the old one.
             # Our LocalID will most likely change because, well, our locale changed.
-            old_region_state.untrack_object(obj)
-        elif old_local_id != new_local_id:
+            # May have been sitting regionless if it was last moved to an unknown region
+            if old_region_state is not None:
+                old_region_state.untrack_object(obj)
+        elif old_local_id != new_local_id and old_region_state is not None:
             # Our LocalID changed, and we deal with linkages to other prims by
             # LocalID association. Break any links since our LocalID is changing.
             # Could happen if we didn't mark an attachment prim dead and the parent agent
@@ -398,7 +400,7 @@ class ClientWorldObjectManager:
                 # `Avatar` instances are handled separately. Update all Avatar objects,
                 # so we can deal with the RegionHandle change.
                 self._rebuild_avatar_objects()
-        elif new_parent_id != old_parent_id:
+        elif new_parent_id != old_parent_id and new_region_state is not None:
             # Parent ID changed, but we're in the same region
             new_region_state.handle_object_reparented(obj, old_parent_id=old_parent_id)
 
